@@ -134,3 +134,58 @@ Proof.
   rewrite join_strs_crlf by discriminate. unfold unfold. rewrite (unfold_join_lines _ H).
   apply split_join_lines. exact H.
 Qed.
+
+(* ------------------------------------------------------------------ every physical line of a serialised component *)
+Lemma phys_lines_nonempty x : phys_lines x <> [].
+Proof.
+  destruct x as [|c x]; [discriminate|]. cbn [phys_lines]. destruct x as [|d x].
+  - cbn. discriminate.
+  - destruct ((c =? 13) && (d =? 10)); [discriminate|]. unfold cons_head. destruct (phys_lines (d :: x)); discriminate.
+Qed.
+
+Lemma cons_head_app c a b : a <> [] -> cons_head c (a ++ b) = cons_head c a ++ b.
+Proof. destruct a; [congruence|reflexivity]. Qed.
+
+Lemma phys_lines_app_crlf_n : forall n x y, (length x <= n)%nat ->
+  phys_lines (x ++ 13 :: 10 :: y) = phys_lines x ++ phys_lines y.
+Proof.
+  induction n as [|n IH]; intros [|c x] y Hl; try reflexivity; [cbn [length] in Hl; lia|].
+  cbn [length] in Hl. destruct x as [|d x].
+  - cbn [app]. change (phys_lines (c :: 13 :: 10 :: y)) with
+      (if (c =? 13) && (13 =? 10) then [] :: phys_lines (10 :: y) else cons_head c (phys_lines (13 :: 10 :: y))).
+    rewrite andb_false_r. reflexivity.
+  - change ((c :: d :: x) ++ 13 :: 10 :: y) with (c :: d :: (x ++ 13 :: 10 :: y)).
+    change (phys_lines (c :: d :: (x ++ 13 :: 10 :: y))) with
+      (if (c =? 13) && (d =? 10) then [] :: phys_lines (x ++ 13 :: 10 :: y)
+       else cons_head c (phys_lines (d :: (x ++ 13 :: 10 :: y)))).
+    change (phys_lines (c :: d :: x)) with
+      (if (c =? 13) && (d =? 10) then [] :: phys_lines x else cons_head c (phys_lines (d :: x))).
+    cbn [length] in Hl. destruct ((c =? 13) && (d =? 10)).
+    + rewrite (IH x y) by lia. reflexivity.
+    + change (d :: (x ++ 13 :: 10 :: y)) with ((d :: x) ++ 13 :: 10 :: y). rewrite (IH (d :: x) y) by (cbn [length]; lia).
+      apply cons_head_app. apply phys_lines_nonempty.
+Qed.
+
+Lemma phys_lines_app_crlf x y : phys_lines (x ++ 13 :: 10 :: y) = phys_lines x ++ phys_lines y.
+Proof. apply (phys_lines_app_crlf_n (length x)). lia. Qed.
+
+Lemma phys_join_lines : forall ls, phys_lines (join_lines ls) = flat_map phys_lines ls ++ [[]].
+Proof.
+  induction ls as [|l ls IH]; [reflexivity|]. cbn [join_lines flat_map]. rewrite phys_lines_app_crlf, IH, app_assoc. reflexivity.
+Qed.
+
+Theorem lines_width ls : forallb no_lf ls = true ->
+  Forall (fun ln => (bytes ln <= 75)%nat) (phys_lines (contentlines_to_ical ls)).
+Proof.
+  intros H. unfold contentlines_to_ical.
+  assert (forallb no_lf (filter nonempty ls) = true) as Hf.
+  { clear -H. induction ls as [|l ls IH]; [reflexivity|]. cbn [forallb] in H. apply andb_true_iff in H. destruct H as [H1 H2].
+    cbn [filter]. destruct (nonempty l); [cbn [forallb]; rewrite H1|]; apply IH; exact H2. }
+  destruct (filter nonempty ls) as [|l0 r] eqn:E.
+  - cbn. constructor; [cbn; lia|constructor; [cbn; lia|constructor]].
+  - rewrite <- E in *. assert (map foldline (filter nonempty ls) <> []) as Hne by (rewrite E; discriminate).
+    rewrite (join_strs_crlf _ Hne), phys_join_lines. apply Forall_app. split; [|constructor; [cbn; lia|constructor]].
+    apply Forall_forall. intros ln Hin. apply in_flat_map in Hin. destruct Hin as (fl & Hfl & Hln).
+    apply in_map_iff in Hfl. destruct Hfl as (l & <- & Hl). rewrite forallb_forall in Hf.
+    pose proof (fold_width l (Hf l Hl)) as W. rewrite Forall_forall in W. apply W. exact Hln.
+Qed.
